@@ -121,3 +121,65 @@ func VerifC05_Abbrev() {
 	vAssert("selected/called", opt.Called(names[target]))
 	vAssert("selected/called-as", opt.CalledAs(names[target]) == calledAs)
 }
+
+// c05resolve is the oracle: index of the selected name, or -1 with the reason.
+func c05resolve(names []string, p string) (target int, ambiguous bool) {
+	var matches []int
+	for i, n := range names {
+		if p == n {
+			return i, false
+		}
+		if strings.HasPrefix(n, p) {
+			matches = append(matches, i)
+		}
+	}
+	switch len(matches) {
+	case 1:
+		return matches[0], false
+	case 0:
+		return -1, false
+	}
+	return -1, true
+}
+
+// The same text used before and after a command word is resolved against the
+// names of the level it is given at (the command adds a name of its own).
+func VerifC05_Levels() {
+	vNativeReset()
+	n1, n2 := vString("n1"), vString("n2")
+	p := vString("p")
+	v := positional("v", "cmd")
+	w := positional("w", "cmd")
+	for _, n := range []string{n1, n2, p} {
+		vAssume(vMatches(n, `[A-Za-z0-9]+`))
+	}
+	vAssume(n1 != n2)
+	opt := New()
+	o1 := opt.String(n1, "d1")
+	cmd := opt.NewCommand("cmd", "")
+	o2 := cmd.String(n2, "d2")
+	vPhase("run")
+	remaining, err := opt.Parse([]string{"--" + p, v, "cmd", "--" + p, w})
+	vObserve("err", err)
+	vObserve("remaining", remaining)
+	vObserve("o1", *o1)
+	vObserve("o2", *o2)
+	t1, amb1 := c05resolve([]string{n1}, p)
+	t2, amb2 := c05resolve([]string{n1, n2}, p)
+	if amb1 || t1 < 0 || amb2 || t2 < 0 {
+		// unknown at the root (Fail mode) or ambiguous somewhere: an error, nothing half-done is demanded
+		vAssert("levels/error", err != nil)
+		vReach("levels-error")
+		return
+	}
+	vAssert("levels/no-error", err == nil)
+	vAssert("levels/remaining-empty", len(remaining) == 0)
+	if t2 == 0 {
+		vAssert("levels/root-option-last-value", *o1 == w)
+		vAssert("levels/command-option-untouched", *o2 == "d2")
+	} else {
+		vAssert("levels/root-option-first-value", *o1 == v)
+		vAssert("levels/command-option-value", *o2 == w)
+	}
+	vReach("levels-resolved")
+}
